@@ -18,9 +18,41 @@ fn run(e_db: u64, v_db: u64, e_t: u64, v_t: u64, flag: u8, rt: &tokio::runtime::
     }
 }
 
+fn run_user_data(e_db: u64, e_t: u64, rt: &tokio::runtime::Runtime, out: &mut Vec<Failure>) {
+    if let Ok((inside, after)) = rt.block_on(akd::vx_export::c15_user_data(e_db, e_t)) {
+        if inside != after {
+            out.push(Failure {
+                clause: "manager/StorageManager.get_user_data#overlay".into(),
+                case: vec!["c15".into(), "userdata".into(), e_db.to_string(), e_t.to_string()],
+                input: format!("database state (epoch {e_db}, 'A'), pending state (epoch {e_t}, 'B'): get_user_data inside the transaction"),
+                expected: format!("{after:?} (what the same query returns after commit)"),
+                observed: format!("{inside:?}"),
+                finding_id: None,
+            });
+        }
+    }
+}
+
+fn run_refused_begin(rt: &tokio::runtime::Runtime, out: &mut Vec<Failure>) {
+    if let Ok((refused, readable, stored)) = rt.block_on(akd::vx_export::c15_refused_begin()) {
+        if !refused || !readable || !stored {
+            out.push(Failure {
+                clause: "transaction/Transaction.begin_transaction#pending_kept".into(),
+                case: vec!["c15".into(), "refusedbegin".into()],
+                input: "begin_transaction, set(epoch record 7), begin_transaction again, get(epoch record), commit".into(),
+                expected: "the second begin is refused, the pending record stays readable and is what the commit stores".into(),
+                observed: format!("refused={refused} readable before commit={readable} stored after commit={stored}"),
+                finding_id: None,
+            });
+        }
+    }
+}
+
 pub fn search(_seed: u64, _full: bool, rt: &tokio::runtime::Runtime) -> SearchResult {
     let mut out = vec![];
     let mut n = 0;
+    for (e_db, e_t) in [(1u64, 1u64), (1, 2), (2, 1), (5, 5)] { run_user_data(e_db, e_t, rt, &mut out); n += 1; }
+    run_refused_begin(rt, &mut out); n += 1;
     // well-formed pairs: (e_db, v_db) vs (e_t, v_t)
     let pairs = [(1u64, 1u64, 5u64, 2u64), (5, 2, 1, 1), (3, 2, 3, 2), (2, 1, 7, 2), (7, 3, 2, 1), (1, 1, 2, 2)];
     for (e_db, v_db, e_t, v_t) in pairs {
@@ -29,10 +61,15 @@ pub fn search(_seed: u64, _full: bool, rt: &tokio::runtime::Runtime) -> SearchRe
             n += 1;
         }
     }
-    SearchResult { evaluations: n, failures: out, summary: "bulk versions query inside a transaction vs after commit: one user, database and pending state in every epoch/version relation, all five retrieval flags".into() }
+    SearchResult { evaluations: n, failures: out, summary: "all-states read (get_user_data) inside a transaction vs after commit incl. a pending rewrite of a committed epoch; pending writes across a refused begin; bulk versions query inside a transaction vs after commit: one user, database and pending state in every epoch/version relation, all five retrieval flags".into() }
 }
 
 pub fn replay(case: &[&str], rt: &tokio::runtime::Runtime) -> (bool, String) {
+    if case[0] == "userdata" || case[0] == "refusedbegin" {
+        let mut out = vec![];
+        if case[0] == "userdata" { run_user_data(case[1].parse().unwrap(), case[2].parse().unwrap(), rt, &mut out); } else { run_refused_begin(rt, &mut out); }
+        return match out.first() { Some(f) => (true, format!("{}: expected {}, observed {}", f.input, f.expected, f.observed)), None => (false, "holds".into()) };
+    }
     let v: Vec<u64> = case.iter().map(|s| s.parse().unwrap()).collect();
     let mut out = vec![];
     run(v[0], v[1], v[2], v[3], v[4] as u8, rt, &mut out);
